@@ -65,6 +65,12 @@ def check(run):
         cc = {k: v for k, v in c.items() if k not in ('gradOnly', 'conv', 'noisy')}
         for tol in ((1e-10, 1e-6, 1e-3) if thorough else (1e-10, 1e-3)):
             g = GC.build_graph(cc)
+            if stats['runs'] % 4 == 1 and len(g._vertices) >= 3:
+                # History dimension: the caller re-orders the tail of the vertex list it handed over (the Graph keeps that very list); the
+                # position of a vertex's unknowns in the normal equations was fixed at construction and must not be re-derived from list positions
+                lst = g._vertices
+                lst[-1], lst[-2] = lst[-2], lst[-1]
+                stats['vertex_list_reordered_after_construction'] = stats.get('vertex_list_reordered_after_construction', 0) + 1
             truth = [v.pose.copy() for v in g._vertices]
             # initial guess inside the calibrated neighbourhood: translation <= 0.3 per axis, rotation <= 0.15 rad
             for j, v in enumerate(g._vertices):
